@@ -52,6 +52,7 @@ class Ob:
     kind: str = "equal"
     ranges: dict = field(default_factory=dict)  # arg index -> (lo, hi): every int leaf of that arg lies in [lo, hi] (assumed; lets gathers split over feasible values only)
     fold: bool = False  # finite-domain mode: keep if-then-else trees with constant leaves folded (small integer inputs selecting constants)
+    exact_specials: bool = False  # keep +-inf / nan produced by a unary op under an if-then-else (log(where(c, 0, p))) as exact leaves: for obligations ABOUT non-finite scores; elsewhere they stay distinguished finite constants so that identical op sequences compare equal
     replay: Callable | None = None  # replay(args) -> (differs, detail): concrete confirmation on the real code for custom obligations
 
 
@@ -447,7 +448,7 @@ def decide(ob: Ob, pid: str, known: list) -> Result:
         modes = modes[:1]
     for mode in modes:
         res.mode = mode
-        interp = J.Interp(mul_mode=mode, while_bound=ob.while_bound, fold_ct=ob.fold)
+        interp = J.Interp(mul_mode=mode, while_bound=ob.while_bound, fold_ct=ob.fold, exact_specials=ob.exact_specials)
         try:
             arrays, sym_args, registry = sym_inputs(ob, closed, interp)
             outs = interp.eval_closed(closed, arrays)
